@@ -4,7 +4,7 @@ from ..core import Stream, hx, unhx
 RULE = ("expr: random well-typed expression trees (depth <= 7; + - * / %, unary minus, parentheses, the 8 comparison spellings, & |, decimal/$hex/0x/0o "
         "literals, INT/STR variables, string constants) printed with minimal parentheses and with redundant ones, evaluated by the real "
         "lexer+runner through PRINT; the logged text must equal evalTree of the tree (Lean model of the CalcTree arm), whose printed form the "
-        "model parser is proved to read back; builtins: MID/SizeOf/REPLACE/CHR/S.s/array indexing over ASCII and non-ASCII text vs the model. "
+        "model parser is proved to read back; exprexec: the same programs through the literal script runner Model.ScriptExec on the real token lists (CalcTree arm with integers, booleans, strings, absent values): same log and stack height; builtins: MID/SizeOf/REPLACE/CHR/S.s/array indexing over ASCII and non-ASCII text vs the model. "
         "non-trivial = distinct (shape, value) pairs of trees with >= 2 operators")
 ASSUMPTIONS = ["intermediate magnitudes stay below 2^62 (generator discards larger trees); isize wrap-around is outside the property",
                "binary operators are written with surrounding blanks (`A - -5`): `A--5` is the decrement statement by the language's own grammar"]
@@ -146,6 +146,29 @@ def streams(tier, rng, P, only=None, cases=None):
         return None
     def expr_nt(c, impl, m): return (c["tree"][:40], m[0]) if c["nops"] >= 2 else None
     s1 = Stream("expr", cases if (cases and only == "expr") else mk_expr(), expr_model, expr_judge, expr_nt, "expression trees through PRINT")
+    # ---- exprexec: the same kind of programs through the literal script runner (Model.ScriptExec) on the REAL token lists: the CalcTree arm
+    #      with integers, booleans, strings and absent values (C10_runner_computes_tree / C10_calc_ops are about that model)
+    def mk_xe():
+        cs = []
+        for c in mk_expr()[: (4000 if big else 600)]:
+            cs.append(dict(req="scriptrun " + hx(c["src"]), src=c["src"], show=c["src"], nops=c["nops"], key="x" + c["key"]))
+        for j, src in enumerate(["PRINT(ZZ+1)", "PRINT(ZZ=0)", "PRINT({a}+ZZ)", "INT A=3; PRINT(A>ZZ)", "PRINT(ZZ>1)", "PRINT({10}+5)", "PRINT({b}>{a})", "PRINT(1={1})", "PRINT((1<2)+1)"]):
+            cs.append(dict(req="scriptrun " + hx(src), src=src, show=src, nops=2, key="xf%d" % j))
+        return cs
+    def xe_model(c, st, f):
+        if st != "ok": return []
+        return ["scriptexec %s %s" % (f["toks"], f["funcs"])]
+    def xe_judge(c, impl, m):
+        st, f = impl
+        if st != "ok": return ("violation", "evaluation did not return normally: %s" % st)
+        if not m or "log=" not in m[0]: return None      # outside the modelled token set (reported in the evidence as not covered)
+        d = dict(x.split("=", 1) for x in m[0].split(" ")[1:] if "=" in x)
+        if d["log"] != f["log"]:
+            return ("mismatch", "literal script model prints %r, the real runner %r" % (unhx(d["log"]).decode("utf-8", "replace")[-80:] if d["log"] != "~" else "", unhx(f["log"]).decode("utf-8", "replace")[-80:] if f["log"] != "~" else ""))
+        if d["stack"] != f["stack"]: return ("mismatch", "value stack height differs: real %s model %s" % (f["stack"], d["stack"]))
+        return None
+    s3 = Stream("exprexec", cases if (cases and only == "exprexec") else mk_xe(), xe_model, xe_judge,
+                lambda c, i, m: (m[0][:120]) if i[0] == "ok" and m and c["nops"] >= 2 else None, "expression programs through the literal script runner on real tokens")
     # ---- built-ins
     def rtext(maxlen=12):
         return "".join(rng.choice(TEXT_CHARS) for _ in range(rng.randrange(0, maxlen))).strip()
@@ -193,4 +216,4 @@ def streams(tier, rng, P, only=None, cases=None):
         if len(pr) != 1 or pr[0] != want: return ("violation", "PRINT shows %r, specified value %r" % (pr, want))
         return None
     s2 = Stream("builtins", cases if (cases and only == "builtins") else mk_b(), lambda c, st, f: [c["mreq"]], b_judge, lambda c, i, m: (c["kind"], m[0]), "string/array built-ins through PRINT")
-    return [s for s in (s1, s2) if only in (None, s.name)]
+    return [s for s in (s1, s3, s2) if only in (None, s.name)]
